@@ -194,7 +194,7 @@ func sustained(idx int64, r *rand.Rand) {
 }
 
 func TestCheck(t *testing.T) {
-	rt.Cases(2000, 4000000, func(idx int64) {
+	rt.Cases(20000, 4000000, func(idx int64) {
 		r := rt.CaseRand(6, idx)
 		rt.Case()
 		if idx%2 == 0 {
